@@ -218,8 +218,8 @@ Proof.
     destruct (is_list n) eqn:Ln.
     + inversion Pk; subst; auto.
     + destruct (a_open e).
-      * destruct (Nat.eqb (a_depth n) (a_depth e + 1) && Nat.eqb (a_end n) en && Nat.eqb n0 (a_start n - 1)); inversion Pk; subst; auto.
-      * destruct (Nat.eqb (a_depth n) (a_depth e + 1) && Nat.eqb (a_end n) en); discriminate.
+      * destruct (Nat.eqb (a_depth n) (a_depth e + 1) && closes s n en && Nat.eqb n0 (a_start n - 1)); inversion Pk; subst; auto.
+      * destruct (Nat.eqb (a_depth n) (a_depth e + 1) && closes s n en); discriminate.
 Qed.
 
 Lemma file_in_edit_shape : forall s args e rs, Forall (ok_arg s) args -> ok_arg s e -> is_list e = true ->
@@ -341,3 +341,150 @@ Proof.
   intros actv attr H. unfold is_active_text in H. unfold edit_remove.
   destruct (file_ranges actv) as [[|r rs]|]; try discriminate. reflexivity.
 Qed.
+
+(* ---------- `closes`: `edit(file)` or, with a trailing comma, `edit(file,)` ---------- *)
+Lemma trim_start_nil : forall t, trim_start t = [] <-> forallb is_ws t = true.
+Proof.
+  induction t as [|c t IH]; simpl; [tauto|]. destruct (is_ws c); simpl; [exact IH|split; discriminate].
+Qed.
+
+Lemma trim_start_head : forall t c r, trim_start t = c :: r -> is_ws c = false.
+Proof.
+  induction t as [|x t IH]; intros c r H; simpl in H; [discriminate|].
+  destruct (is_ws x) eqn:E; [eauto|]. inversion H; subst. exact E.
+Qed.
+
+(* str::trim() leaves nothing iff every character is white space *)
+Lemma trim_nil : forall t, trim t = [] <-> forallb is_ws t = true.
+Proof.
+  intros t. unfold trim. split; intros H.
+  - destruct (trim_start t) as [|c r] eqn:E; [apply trim_start_nil; exact E|].
+    apply (f_equal (@rev ascii)) in H. rewrite rev_involutive in H. simpl in H.
+    apply trim_start_nil in H. rewrite forallb_forall in H.
+    pose proof (trim_start_head _ _ _ E) as Hc.
+    rewrite (H c) in Hc; [discriminate|]. apply in_or_app. right. simpl. auto.
+  - apply trim_start_nil in H. rewrite H. reflexivity.
+Qed.
+
+Lemma forallb_firstn_nth : forall (f : ascii -> bool) k l, k <= List.length l ->
+  (forallb f (firstn k l) = true <-> forall j, j < k -> exists c, nth_error l j = Some c /\ f c = true).
+Proof.
+  induction k as [|k IH]; intros l Hk.
+  - simpl. split; [intros _ j Hj; lia|auto].
+  - destruct l as [|x l]; [simpl in Hk; lia|]. simpl in Hk. simpl firstn. simpl forallb.
+    rewrite andb_true_iff. rewrite (IH l) by lia. split.
+    + intros [Hx Hl] j Hj. destruct j; simpl; [eauto|]. apply Hl. lia.
+    + intros H. split.
+      * destruct (H 0) as [c [Hc Hf]]; [lia|]. simpl in Hc. inversion Hc; subst. exact Hf.
+      * intros j Hj. apply (H (S j)). lia.
+Qed.
+
+(* blank_between s a b: the slice s[a..b] exists and every character at a position a <= i < b is white space *)
+Theorem blank_between_spec : forall s a b,
+  blank_between s a b = true <->
+  a <= b /\ b <= List.length s /\ forall i, a <= i < b -> exists c, nth_error s i = Some c /\ is_ws c = true.
+Proof.
+  intros s a b. unfold blank_between, slice.
+  destruct (Nat.leb a b && Nat.leb b (List.length s)) eqn:E.
+  - apply andb_prop in E. destruct E as [E1 E2]. apply Nat.leb_le in E1. apply Nat.leb_le in E2.
+    assert (K : trim (firstn (b - a) (skipn a s)) = [] <->
+                forall i, a <= i < b -> exists c, nth_error s i = Some c /\ is_ws c = true).
+    { rewrite trim_nil. rewrite forallb_firstn_nth by (rewrite skipn_length; lia). split.
+      - intros H i Hi. destruct (H (i - a)) as [c [Hc Hw]]; [lia|]. rewrite nth_error_skipn' in Hc.
+        replace (a + (i - a)) with i in Hc by lia. eauto.
+      - intros H j Hj. rewrite nth_error_skipn'. apply H. lia. }
+    destruct (trim (firstn (b - a) (skipn a s))) as [|x r] eqn:T.
+    + split; [intros _; repeat split; auto; apply K; reflexivity|reflexivity].
+    + split; [discriminate|]. intros [_ [_ H]]. apply K in H. discriminate.
+  - split; [discriminate|]. intros [H1 [H2 _]].
+    apply Nat.leb_le in H1. apply Nat.leb_le in H2. rewrite H1, H2 in E. discriminate.
+Qed.
+
+(* the repair only adds cases: what closed before (n.end == end) still closes *)
+Lemma closes_end : forall s n en, Nat.eqb (a_end n) en = true -> closes s n en = true.
+Proof. intros s n en H. unfold closes. rewrite H. reflexivity. Qed.
+
+Theorem closes_spec : forall s n en,
+  closes s n en = true <->
+  a_end n = en \/ (a_comma n = Some (a_end n) /\ blank_between s (S (a_end n)) en = true).
+Proof.
+  intros s n en. unfold closes. rewrite orb_true_iff, andb_true_iff, Nat.eqb_eq.
+  destruct (a_comma n) as [cm|].
+  - rewrite Nat.eqb_eq. split; (intros [H|[H1 H2]]; [left; exact H|right; split; auto]); congruence.
+  - split; (intros [H|[H1 H2]]; [left; exact H|discriminate]).
+Qed.
+
+(* no panic is hidden in `closes`: under the guard of fie_pick (n.end <= end) and with `end` an index into the text
+   (it is the recorded `)` of the edit argument), the slice attr_str[n.end+1..end] is evaluated only when n.end < end,
+   and then it is in range *)
+Lemma closes_slice_in_range : forall s n en, Nat.leb (a_end n) en = true -> en <= List.length s ->
+  a_end n = en \/ exists t, slice (S (a_end n)) en s = Some t.
+Proof.
+  intros s n en H L. apply Nat.leb_le in H. destruct (Nat.eq_dec (a_end n) en) as [E|E]; [left; exact E|right].
+  unfold slice. assert (K1 : Nat.leb (S (a_end n)) en = true) by (apply Nat.leb_le; lia).
+  assert (K2 : Nat.leb en (List.length s) = true) by (apply Nat.leb_le; lia).
+  rewrite K1, K2. simpl. eauto.
+Qed.
+
+Lemma ok_close_in_text : forall s e en, ok_arg s e -> a_close e = Some en -> en < List.length s.
+Proof.
+  intros s e en [_ [Hc _]] H. apply Hc in H. apply nth_error_Some. rewrite H. discriminate.
+Qed.
+
+(* ---------- the repaired behaviour on concrete attribute texts ---------- *)
+Definition surg (a : string) : option (list range) * option string :=
+  (file_ranges (s2l a), option_map l2s (edit_remove (s2l a) (s2l a))).
+Definition tc_newline : string := "edit(file ," ++ String (ascii_of_nat 10) "  )".
+
+(* reference: `edit(file)` - the whole `(file)` group goes, `edit` stays *)
+Example fie_trailing_comma_ex0 : surg "edit(file)" = (Some [(4, 4, 10)], Some "edit"%string).
+Proof. vm_compute. reflexivity. Qed.
+(* `edit(file,)`: the whole `(file,)` group goes *)
+Example fie_trailing_comma_ex1 : surg "edit(file,)" = (Some [(4, 4, 11)], Some "edit"%string).
+Proof. vm_compute. reflexivity. Qed.
+(* blanks around the comma *)
+Example fie_trailing_comma_ex2 : surg "edit(file , )" = (Some [(4, 4, 13)], Some "edit"%string).
+Proof. vm_compute. reflexivity. Qed.
+(* blanks and a newline before the parenthesis *)
+Example fie_trailing_comma_ex3 : surg tc_newline = (Some [(4, 4, 15)], Some "edit"%string).
+Proof. vm_compute. reflexivity. Qed.
+(* inside a whole attribute: same result as for `edit(file)` *)
+Example fie_trailing_comma_ex4 :
+  surg "#[interthread::actor(edit(file,))]" = (Some [(25, 25, 32)], Some "#[interthread::actor(edit)]"%string) /\
+  surg "#[interthread::actor(edit(file))]" = (Some [(25, 25, 31)], Some "#[interthread::actor(edit)]"%string) /\
+  surg "#[interthread::actor(edit(file , ), debut)]" = (Some [(25, 25, 34)], Some "#[interthread::actor(edit, debut)]"%string).
+Proof. vm_compute. repeat split; reflexivity. Qed.
+(* the attribute is file-active now *)
+Example fie_trailing_comma_ex5 :
+  is_active_text (s2l "edit(file,)") = Some true /\ is_active_text (s2l "#[interthread::actor(edit(file , ))]") = Some true.
+Proof. vm_compute. split; reflexivity. Qed.
+(* `edit(file, live)`: unchanged - a bare `file` that does not close the edit list is not a marker: nothing is deleted,
+   the attribute is not active *)
+Example fie_trailing_comma_ex6 :
+  surg "edit(file, live)" = (Some [], Some "edit(file, live)"%string) /\
+  surg "#[interthread::actor(edit(file, live))]" = (Some [], Some "#[interthread::actor(edit(file, live))]"%string) /\
+  is_active_text (s2l "edit(file, live)") = Some false.
+Proof. vm_compute. repeat split; reflexivity. Qed.
+(* `edit(file,x)`: something other than white space follows the comma - not the whole-edit marker *)
+Example fie_trailing_comma_ex7 :
+  surg "edit(file,x)" = (Some [], Some "edit(file,x)"%string) /\
+  surg "#[interthread::actor(edit(file,x))]" = (Some [], Some "#[interthread::actor(edit(file,x))]"%string) /\
+  is_active_text (s2l "edit(file,x)") = Some false.
+Proof. vm_compute. repeat split; reflexivity. Qed.
+(* a second comma is not white space either; a trailing comma does not make a later `file` the marker
+   (arg_edit.open == n.start - 1 still fails), nor one nested deeper (depth) *)
+Example fie_trailing_comma_ex8 :
+  fst (surg "edit(file,,)") = Some [] /\ fst (surg "edit(live, file,)") = Some [] /\ fst (surg "edit(script(file,))") = Some [].
+Proof. vm_compute. repeat split; reflexivity. Qed.
+(* `closes` itself on the `file` argument as parse_args records it, for `edit(file,)`, `edit(file , )`, `edit(file,x)`,
+   `edit(file)` *)
+Example fie_trailing_comma_ex9 :
+  parse_args (s2l "edit(file,)") = Some [mkarg 0 0 None (Some 4) (Some 10) 0 None; mkarg 1 10 None None None 10 None;
+                                         mkarg 1 5 None None None 9 (Some 9)] /\
+  fie_pick (s2l "edit(file,)") (mkarg 0 0 None (Some 4) (Some 10) 0 None) 0 10 (mkarg 1 5 None None None 9 (Some 9))
+    = Some (Some (mkarg 0 0 None (Some 4) (Some 10) 0 None)) /\
+  closes (s2l "edit(file,)") (mkarg 1 5 None None None 9 (Some 9)) 10 = true /\
+  closes (s2l "edit(file , )") (mkarg 1 5 None None None 10 (Some 10)) 12 = true /\
+  closes (s2l "edit(file,x)") (mkarg 1 5 None None None 9 (Some 9)) 11 = false /\
+  closes (s2l "edit(file)") (mkarg 1 5 None None None 9 None) 9 = true.
+Proof. vm_compute. repeat split; reflexivity. Qed.
